@@ -267,6 +267,17 @@ def _transform(case, ctx):
         ctx.check("c16.jacobian", bool(np.all(ok)), f"{getter}: the supplied Jacobian is not |det d transform / dx|", point=X[j].tolist(), got=float(J[j]), numeric=float(Jn[j]))
         back = tr["inverse"](tr["transform"](X))
         ctx.check("c16.roundtrip", bool(np.all(np.abs(back - X) <= 1e-12 * np.abs(X))), f"{getter}: inverse(transform(x)) != x", n=len(X))
+        # points given as integers (whole metres and seconds), as lists, as a single row: the same numbers as floats
+        Xi = np.array([[1, 5], [2, 6], [3, 8], [7, 11]])
+        want_t = np.asarray(tr["transform"](Xi.astype(float)), float)
+        for fname, form in (("int64", Xi), ("int32", Xi.astype(np.int32)), ("list", Xi.tolist())):
+            try:
+                got_t = np.asarray(tr["transform"](form), float)
+                ok_t = got_t.shape == want_t.shape and bool(np.allclose(got_t, want_t, rtol=1e-14, atol=0))
+            except Exception as e:  # noqa: BLE001
+                ctx.count(f"c16.transform-form-rejected[{fname}:{type(e).__name__}]")
+                continue
+            ctx.check("c16.roundtrip", ok_t, f"{getter}: transform of {fname} points differs from the same points as floats", form=fname, got=got_t[:2], want=want_t[:2])
     ctx.nontrivial = True
     ctx.sample = {"kind": "transform", "n_points": n, "first": [float(hs[0]), float(tz[0])]}
 
@@ -287,6 +298,14 @@ def _model(case, ctx):
     ok = np.abs(got - want) <= 1e-9 * np.abs(want) + 1e-200
     j = int(np.argmin(ok))
     ctx.check("c16.pdf-pushforward", bool(np.all(ok)), "TransformedModel.pdf is not the push-forward of the base density", point=pts[j].tolist(), got=float(got[j]), want=float(want[j]), **info)
+    # integer-typed evaluation points
+    Pi = np.array([[1, 4], [2, 6], [3, 7]])
+    if case["variant"] == "tank":
+        Pi = np.array([[1, 2], [1, 3]])
+    with np.errstate(all="ignore"):
+        gi = np.asarray(tm.pdf(Pi), float)
+        gf = np.asarray(tm.pdf(Pi.astype(float)), float)
+    ctx.check("c16.pdf-pushforward", gi.shape == gf.shape and bool(np.allclose(gi, gf, rtol=1e-12, atol=0, equal_nan=True)), "TransformedModel.pdf of integer-typed points differs from the same points as floats", got=gi, want=gf, **info)
     # draw_sample = inverse transform of the base sample it drew
     BASE_SAMPLES.clear()
     smp = np.asarray(tm.draw_sample(5000), float)
